@@ -147,7 +147,7 @@ mptr in_head; struct obj* addn_last; _Bool addn_cas_ok_seen, addn_cas_last_ok; m
 #else
 #define XV_INV_ADDN (!addn_cas_ok_seen && addn_stores_other == 0 && self->head == in_head && old == in_head)
 #endif
-#define XV_HAVOC_ADDN old = nondet_word(); O_next_free((*last)) = nondet_uptr(); addn_cas_last_ok = nondet_bool(); addn_cas_exp = nondet_uptr(); addn_cas_des = nondet_uptr(); \
+#define XV_HAVOC_ADDN /* self->head: written only by the successful CAS, which ends the loop (in INT mode the environment rewrites it in xv_env) */ old = nondet_word(); O_next_free((*last)) = nondet_uptr(); addn_cas_last_ok = nondet_bool(); addn_cas_exp = nondet_uptr(); addn_cas_des = nondet_uptr(); \
                       addn_tail_at_cas = nondet_uptr(); addn_cas_order = nondet_int(); xv_clock = nondet_u64(); XV_ASSUME(xv_clock < ((uint64_t)1 << 60))
 #define XV_HAVOC_ACQ havoc_acq(self) /* writes self->ptr, the counts reached through O_ref_count(*GDEREF(q)), and all ghost state */
 
